@@ -259,6 +259,11 @@ fn compact_total<const N: usize>(lowres: bool) {
 }
 
 fn compact_total_class<const N: usize>(lowres: bool, clean: bool) {
+    compact_total_marker::<N>(lowres, if clean { 56 } else { 64 })
+}
+
+/// `marker` < 64: every input has its lowest set bit exactly at `marker` (clean low bits).
+fn compact_total_marker<const N: usize>(lowres: bool, marker: u32) {
     warm();
     #[cfg(felixpalmer_a5_rs_verif)]
     unsafe {
@@ -270,9 +275,9 @@ fn compact_total_class<const N: usize>(lowres: bool, clean: bool) {
         if lowres {
             kani::assume(res_stub(input[i]) <= 1);
         }
-        if clean {
-            // marker at bit 56, nothing below it: the ID is determined by its top 7 bits
-            kani::assume(input[i] & ((1u64 << 57) - 1) == (1u64 << 56));
+        if marker < 64 {
+            // marker bit set, nothing below it: the ID is determined by its bits above the marker
+            kani::assume(input[i] & ((1u64 << (marker + 1)) - 1) == (1u64 << marker));
         }
         if i > 0 {
             kani::assume(input[i - 1] < input[i]);
@@ -330,6 +335,17 @@ pub fn c14_compact_lowres5() {
 #[kani::stub(a5::core::serialization::get_resolution, res_stub)]
 pub fn c14_compact_r1_clean5() {
     compact_total_class::<5>(false, true);
+}
+
+/// Four IDs with the marker at bit 55 (apparent resolution 2) and clean low bits, any top-6 code
+/// 0..63: a complete sibling group of malformed IDs (codes 60..63) must give Err, not a panic.
+#[kani::proof]
+#[kani::unwind(14)]
+#[kani::stub(alloc::fmt::format, fmt_stub)]
+#[kani::stub(<[u64]>::sort_unstable, sort_noop)]
+#[kani::stub(a5::core::serialization::get_resolution, res_stub)]
+pub fn c14_compact_r2_clean4() {
+    compact_total_marker::<4>(false, 55);
 }
 
 // ---------------------------------------------------------------------------------------------
